@@ -172,7 +172,8 @@ pub fn slices_order_independent<const N: usize>(acc: &mut Acc, g: &Sodg<N>, m: &
     let small = m.present.len() <= 4;
     let limit = if small { 5000 } else { 24 };
     for v in m.keys().into_iter().take(if small { 4 } else { 2 }) {
-        if m.reachable_present(v).is_none_or(|r| r.len() > 14) {
+        // (also from vertices that reach a collected one: whatever slice() does there, it does it every time)
+        if m.reachable_present(v).is_some_and(|r| r.len() > 14) {
             continue;
         }
         for subset in &subsets {
@@ -269,6 +270,30 @@ pub fn check_case(acc: &mut Acc, prop: &str, c: &GraphCase, cfg: &HxCfg, all_ord
 pub fn wide_cases() -> Vec<GraphCase> {
     let mut out = vec![];
     let mut push = |what: String, ops: Vec<Op>| out.push(GraphCase { n: 16, cap: 20, ops, what });
+    // trees of 2 and 3 levels whose root keeps an edge to a collected vertex (a second group, linked by
+    // a cross-group edge, then collected): several vertices of one level have kids still to be found
+    for (kids, levels) in [(2usize, 2usize), (3, 2), (2, 3), (4, 3)] {
+        let mut ops = vec![Op::Add(0)];
+        let mut level: Vec<usize> = vec![0];
+        let mut next = 1usize;
+        let mut binds = vec![];
+        for l in 0..levels {
+            let mut below = vec![];
+            for p in &level {
+                let fan = if l == 0 { kids } else { 1 };
+                for k in 0..fan {
+                    ops.push(Op::Add(next));
+                    binds.push(Op::Bind(*p, next, 10 + k as u8));
+                    below.push(next);
+                    next += 1;
+                }
+            }
+            level = below;
+        }
+        ops.extend(binds);
+        ops.extend([Op::Add(18), Op::Add(19), Op::Bind(18, 19, 0), Op::Bind(0, 18, 9), Op::Put(19, 0), Op::Data(19)]);
+        push(format!("tree of {levels} levels under a root with {kids} kids, the root keeps an edge to a collected vertex"), ops);
+    }
     for n in [12usize, 13, 14] {
         for rev in [false, true] {
             let order: Vec<usize> = if rev { (0..n).rev().collect() } else { (0..n).collect() };
